@@ -77,7 +77,8 @@ class NegSoftplusTransform(SoftplusTransform):
         Args:
             upper (ArrayLike): Upper bound of the interval.
         """
-        super().__init__(upper)
+        # `forward(x) = -(softplus(-x) + lower)`, so the mirrored bound is `-upper`.
+        super().__init__(-upper)
 
     def forward(self, x: ArrayLike) -> Array:
         return -super().forward(-x)
